@@ -479,12 +479,30 @@ let handle_ll fields impl =
      | _ -> (Some "driver: cannot parse ll observable", []))
   | _ -> (Some "driver: bad ll line", [])
 
+(* content lookup with a uTP transfer:  cu <size> <hops> <kseed> <digest-of-the-stored-value> | ok <served> <outcome>
+   Outcome level (C10_content_first_wins): the holder was queried (it served a talk request) and supplied the value, so
+   the lookup has to return exactly those bytes. *)
+let handle_cu fields impl =
+  match fields with
+  | [_; _size; _hops; _kseed; digest] ->
+    if impl = "unobserved" then (None, []) else
+    if starts impl "panic" then (Some "ok", ["lookup-goroutine-panics utp-content-lookup " ^ impl]) else
+    (match String.split_on_char ' ' impl with
+     | ["ok"; served; outcome] ->
+       if int_of_string served = 0 then (Some impl, [])   (* the holder was never reached: nothing to conclude *)
+       else if outcome = "found:" ^ digest then (Some impl, [])
+       else (Some ("ok " ^ served ^ " found:" ^ digest),
+             ["content-missed utp-content-lookup: the queried holder supplied " ^ digest ^ " over uTP, lookup says " ^ outcome])
+     | _ -> (Some "driver: cannot parse cu observable", []))
+  | _ -> (Some "driver: bad cu line", [])
+
 let handle fields impl : string option * string list =
   match fields with
   | "lk" :: _ -> handle_lk fields impl
   | "push" :: _ -> handle_push fields impl
   | "cl" :: _ -> handle_cl fields impl
   | "ll" :: _ -> handle_ll fields impl
+  | "cu" :: _ -> handle_cu fields impl
   | _ -> (Some "driver: unknown line", [])
 
 let () = Util.run handle
